@@ -40,7 +40,7 @@ STYLE_VALUES = ['color: red', 'color:red;float:left', ' padding-top : 5px ; ', '
 TEXTS = ['x', ' ', '\n', 'hello world', '  two  ', 'a > b', 'é☃', '\t', 'x\ny', '1 < 2', 'a & b', 'R &'+' D', 'l1\r\nl2', 'x\ry'] + UNI_TEXTS
 ENTITIES = ['amp', 'lt', 'nbsp', 'copy']
 CHARREFS = ['65', 'x41', '8364', 'X3c']
-COMMENTS = ['c', ' spaced ', '', 'a-b', 'x > y', 'multi\nline', 'cr\r\nlf']
+COMMENTS = ['c', ' spaced ', '', 'a-b', 'x > y', 'multi\nline', 'cr\r\nlf', ' if the user is logged in ', 'if', 'iframe x', 'x [if y]>z', ' IF x']
 
 
 def render_token(t, rng):
